@@ -297,17 +297,19 @@ class OrthoXML_manager(object):
 
         from . import abstractgene as absGene
 
-        def _process_child(child, current_xml):
+        def _process_child(child, current_xml, keep=False):
 
             if isinstance(child, absGene.Gene):
                 generef_xml = etree.SubElement(current_xml, "geneRef")
                 generef_xml.set('id', str(child.unique_id))
             else:
-                _visit(child, current_xml)
+                _visit(child, current_xml, keep)
 
-        def _visit(hog, parent):
+        def _visit(hog, parent, keep=False):
 
-            if len(hog.children) == 1 and parent.tag == "orthologGroup":
+            # a group may only be left out when the loader can infer it again: its XML parent has to be
+            # an orthologGroup, and not one that was written for a single child (keep)
+            if len(hog.children) == 1 and parent.tag == "orthologGroup" and not keep:
                 current_hog_xml = parent
 
             elif len(hog.duplications) >= 1:
@@ -319,7 +321,7 @@ class OrthoXML_manager(object):
 
                 remaining_hog = list(set(hog.children) - set(dup_child))
 
-                if len(remaining_hog) == 0 and len(hog.duplications) == 1 and parent.tag == "orthologGroup":
+                if len(remaining_hog) == 0 and len(hog.duplications) == 1 and parent.tag == "orthologGroup" and not keep:
 
                     current_hog_xml = parent
 
@@ -351,9 +353,12 @@ class OrthoXML_manager(object):
                         _process_child(child, paralogGroup)
                         processed_child.append(child)
 
+            # the level of a group written around a single child is "one above that child"
+            keep_child = len(hog.children) == 1 and current_hog_xml is not parent
+
             remaining_hog = list(set(hog.children) - set(processed_child))
             for child in remaining_hog:
-                    _process_child(child, current_hog_xml)
+                    _process_child(child, current_hog_xml, keep_child)
 
         self.groupsxml = etree.SubElement(self.xml, "groups")
 
